@@ -827,6 +827,11 @@ def execute(job):
             b = bb.BADS(f, options=opts if job.get("opts_by_reference") else dict(opts), **kw)
             run.bads = b
             run.phase = "pre"
+            if job.get("reseed_after_construct") is not None:
+                # the seed option is changed on the constructed object before the run: the run is seeded with the new value and
+                # the result must name the seed that was actually used
+                b.options["random_seed"] = int(job["reseed_after_construct"])
+                run.user_opts["random_seed"] = int(job["reseed_after_construct"])
             if job.get("scribble_inputs"):
                 # the caller goes on using its own arrays after construction: the run and the result must not follow them
                 for name_ in ("x0", "lower_bounds", "upper_bounds", "plausible_lower_bounds", "plausible_upper_bounds"):
